@@ -215,6 +215,11 @@ func C18(c *Ctx) {
 			continue
 		}
 		nStore++
+		if e.Generic {
+			// a helper that is handed the prefix or the key: judged where it is called (the effect re-created at each call site)
+			r.OK("A11.section-resolved", fn(e.Fn)+"|"+e.Kind+"|by-parameter", pos(c, e.Site), "store access through a key or prefix handed in by the caller: resolved at every call site")
+			continue
+		}
 		pv, ok := allPrefix[e.Section]
 		good := ok && pv.Module == m
 		if strings.Contains(fn(e.Fn), "/migrations/") || strings.Contains(fn(e.Fn), "/simulation") {
